@@ -3,8 +3,10 @@ From Coq Require Import Reals.
 From Flocq Require Import Core.Core IEEE754.Binary IEEE754.Bits.
 From Dashu Require Import Base.Prelude Float.RoundSpec Float.RoundSpecProof Float.Contract Float.Model Float.ModelProof
   Int.IoSpec Float.TextIoSpec Float.TextIoModel Float.BaseConvProof Float.TextIoProof Float.SciProof Float.ParseProof Float.ParseSound Float.TextIoExamples
-  Conv.ConvSpec Conv.ConvModel Float.IeeeImportModel Float.IeeeImportProof Float.LargeExpBound Float.LargeExpRoute.
-From DashuGen Require Import RoundTables.
+  Conv.ConvSpec Conv.ConvModel Float.IeeeImportModel Float.IeeeImportProof Float.LargeExpBound Float.LargeExpRoute
+  Float.AddModel Float.ElemF32 Float.ElemAsis Float.LargeExpAsis Float.LargeExpAsisProof
+  Float.WithBasePrec Float.WithBasePrecProof Float.WithBasePrecRule.
+From DashuGen Require Import RoundTables ConvBaseGen.
 Open Scope Z_scope.
 
 (** ** parsing: every text of the documented grammar (parse_spec = the grammar read from left to right: sign,
@@ -214,6 +216,177 @@ Theorem C08_large_route_correct_away_from_boundaries : forall (LB LN e q E s : R
   rnd (s * E * exp (q * LN))%R = rnd (s * exp (e * LB))%R.
 Proof. exact route_correct_away_from_boundaries. Qed.
 Print Assumptions C08_large_route_correct_away_from_boundaries.
+
+(** ** round 3: the ln/exp route AS IT IS (Float/LargeExpAsis.v: the code of the route transcribed on top of the C11
+    as-is models of Context::ln / ln_base / exp, FBig multiplication and div_rem_euclid; the correspondence run
+    compares it with the implementation bit for bit) and the fragments of float/src/convert.rs regenerated on
+    every run (DashuGen.ConvBaseGen) *)
+
+Theorem C08_gen_threshold_small_exp : threshold_small_exp_gen = threshold_small_exp.
+Proof. exact gen_threshold_small_exp. Qed.
+Print Assumptions C08_gen_threshold_small_exp.
+
+(** the work precision of the route since the repair F07: twice the target precision plus the digits (base NB) of
+    exponent * bit_len(B) - these cover the integer part of exponent * ln B, which the Euclidean division cancels *)
+Theorem C08_gen_large_work_precision : forall p e B NB, 2 <= NB -> 2 <= B -> 1 <= p -> e <> 0 ->
+  let wp := large_work_precision_gen p e B NB in
+  wp = 2 * p + dlen NB (e * ElemF32.bit_len B) /\ 2 * p < wp /\
+  NB ^ (2 * p - 1) * (Z.abs e * ElemF32.bit_len B) < NB ^ (wp - 1).
+Proof.
+  intros p e B NB H1 H2 H3 H4 wp. split; [exact (gen_large_work_precision p e B NB)|].
+  exact (gen_large_work_precision_covers p e B NB H1 H2 H3 H4).
+Qed.
+Print Assumptions C08_gen_large_work_precision.
+
+Theorem C08_gen_with_base_precision_formula : forall (F : Type) (O : f32ops F) W B NB p,
+  with_base_prec_gen O W B NB p =
+  f_to_usize O (f_div O (fst (ubig_log2_bounds O W (B ^ p))) (snd (uint_log2_bounds O NB))).
+Proof. exact @gen_with_base_prec. Qed.
+Print Assumptions C08_gen_with_base_precision_formula.
+
+Theorem C08_gen_from_float_precision : forall man, from_float_prec_gen man = ElemF32.bit_len man.
+Proof. exact gen_from_float_prec. Qed.
+Print Assumptions C08_gen_from_float_precision.
+
+Theorem C08_from_ieee_asis_precision_gen : forall P bits,
+  from_ieee_asis P bits =
+  match decode_asis P bits with
+  | DFin man exp => let '(s', e') := normalize 2 man exp in Some (s', e', from_float_prec_gen man)
+  | _ => None
+  end.
+Proof. exact from_ieee_asis_prec_gen. Qed.
+Print Assumptions C08_from_ieee_asis_precision_gen.
+
+(** which inputs take the route; every other input is decided by the model of the theorems above *)
+Theorem C08_convert_large_route_inputs : forall B NB p m s e,
+  convert_base_asis B NB p m s e = CLarge -> NB <> B /\ p <> 0 /\ threshold_small_exp_gen < Z.abs e.
+Proof. exact convert_base_large_iff. Qed.
+Print Assumptions C08_convert_large_route_inputs.
+
+Theorem C08_convert_full_asis_other_routes : forall (F : Type) (O : f32ops F) W fuel B NB p m s e,
+  convert_base_asis B NB p m s e <> CLarge ->
+  convert_base_full_asis O W fuel B NB p m s e = convert_base_asis B NB p m s e.
+Proof. exact @convert_base_full_asis_modelled. Qed.
+Print Assumptions C08_convert_full_asis_other_routes.
+
+(** the answer of the route is ONE specification rounding (round_norm, C08_round_norm) of
+    significand * sig(exp_rem) * NB^(quotient + exponent(exp_rem)) *)
+Theorem C08_convert_large_asis_round : forall (F : Type) (O : f32ops F) W fuel B NB p m s e t,
+  convert_base_asis B NB p m s e = CLarge ->
+  large_trace_asis O W fuel B NB p m e = Ok t ->
+  convert_base_full_asis O W fuel B NB p m s e =
+  round_norm NB p m (s * approx_sig (lt_exp t)) (lt_q t + approx_exp (lt_exp t)).
+Proof. exact @convert_large_asis_round. Qed.
+Print Assumptions C08_convert_large_asis_round.
+
+Theorem C08_convert_large_trace_shape : forall (F : Type) (O : f32ops F) W fuel B NB p m e t,
+  large_trace_asis O W fuel B NB p m e = Ok t ->
+  let wp := large_work_precision_gen p e B NB in
+  (exists a, ln_internal NB O W fuel wp m (fst (normalize NB B 0)) (snd (normalize NB B 0)) false = Ok a /\
+             lt_lnB t = FB (approx_sig a) (approx_exp a) wp) /\
+  lt_newexp t = prim_mul NB m e (lt_lnB t) /\
+  ln_base NB O W fuel wp m = Ok (lt_lnNB t) /\
+  fb_div_rem_euclid NB m (lt_newexp t) (lt_lnNB t) = Ok (lt_q t, lt_rem t) /\
+  - isize_max - 1 <= lt_q t <= isize_max /\
+  exp_internal NB O W fuel (fprec (lt_rem t)) m (fsig (lt_rem t)) (fexp (lt_rem t)) false = Ok (lt_exp t).
+Proof. exact @large_trace_shape. Qed.
+Print Assumptions C08_convert_large_trace_shape.
+
+(** the Euclidean step of the route is exact (the hypothesis 0 <= m - q c < c of the accuracy theorems) and its
+    remainder is one convert_int rounding *)
+Theorem C08_div_rem_euclid_exact : forall NB m x y q r, 2 <= NB -> 0 < fsig y ->
+  fb_div_rem_euclid NB m x y = Ok (q, r) ->
+  let ex := Z.min (fexp x) (fexp y) in
+  let X := fsig x * NB ^ (fexp x - ex) in
+  let Y := fsig y * NB ^ (fexp y - ex) in
+  0 < Y /\ 0 <= X - q * Y < Y /\
+  r = (let rf := convert_int NB (ctx_max (fprec x) (fprec y)) m (X - q * Y) in
+       if fsig rf =? 0 then rf else FB (fsig rf) (fexp rf + ex) (fprec rf)).
+Proof. exact fb_div_rem_euclid_exact. Qed.
+Print Assumptions C08_div_rem_euclid_exact.
+
+(** accuracy for an arbitrary work precision wp (D = NB^(wp-1)) ... *)
+Theorem C08_convert_large_route_error_wp : forall (rB rNB : radix) (p wp k e q s : Z) (a c m r E Rf : R),
+  let LB := ln (IZR rB) in let LN := ln (IZR rNB) in
+  let D := IZR (rNB ^ (wp - 1)) in let u := (/ D)%R in let kap := (IZR k * u)%R in
+  let tn := IZR (k * (3 * Z.log2_up rNB + 5 * Z.abs e * Z.log2_up rB)) in
+  let en := (IZR k * D + 2 * tn * D + 2 * IZR k * tn)%R in
+  1 <= k -> 1 <= wp -> (2 * tn <= D)%R -> (4 * IZR k <= D)%R ->
+  (Rabs (a - LB) <= kap * LB)%R -> (Rabs (c - LN) <= kap * LN)%R ->
+  (Rabs (m - IZR e * a) <= u * Rabs (IZR e * a))%R ->
+  (0 <= m - IZR q * c < c)%R -> (Rabs (r - (m - IZR q * c)) <= u * (m - IZR q * c))%R ->
+  (Rabs (E - exp r) <= kap * exp r)%R ->
+  (Rabs (Rf - IZR s * E * bpow rNB q) <= bpow rNB (1 - p) * Rabs (IZR s * E * bpow rNB q))%R ->
+  (Rabs (Rf - IZR s * bpow rB e) <=
+   (bpow rNB (1 - p) * (1 + en / (D * D)) + en / (D * D)) * Rabs (IZR s * bpow rB e))%R.
+Proof. exact convert_large_route_error_wp. Qed.
+Print Assumptions C08_convert_large_route_error_wp.
+
+(** ... and for the work precision of the code: whenever 16 k log2up(NB) <= NB^(2p-1) the bound holds for EVERY
+    exponent, with eps <= 18 k log2up(NB) NB^(1-2p) (before the repair: only while |exponent| is small against
+    NB^(2p-1), nothing otherwise) *)
+Theorem C08_convert_large_route_error_fixed : forall (rB rNB : radix) (p k e q s : Z) (a c m r E Rf : R),
+  let wp := large_work_precision_gen p e rB rNB in
+  let LB := ln (IZR rB) in let LN := ln (IZR rNB) in
+  let D := IZR (rNB ^ (wp - 1)) in let u := (/ D)%R in let kap := (IZR k * u)%R in
+  let tn := IZR (lr_tn k rB rNB e) in
+  let en := (IZR k * D + 2 * tn * D + 2 * IZR k * tn)%R in
+  1 <= k -> 1 <= p -> e <> 0 -> 16 * k * Z.log2_up rNB <= rNB ^ (2 * p - 1) ->
+  (Rabs (a - LB) <= kap * LB)%R -> (Rabs (c - LN) <= kap * LN)%R ->
+  (Rabs (m - IZR e * a) <= u * Rabs (IZR e * a))%R ->
+  (0 <= m - IZR q * c < c)%R -> (Rabs (r - (m - IZR q * c)) <= u * (m - IZR q * c))%R ->
+  (Rabs (E - exp r) <= kap * exp r)%R ->
+  (Rabs (Rf - IZR s * E * bpow rNB q) <= bpow rNB (1 - p) * Rabs (IZR s * E * bpow rNB q))%R ->
+  (Rabs (Rf - IZR s * bpow rB e) <=
+     (bpow rNB (1 - p) * (1 + en / (D * D)) + en / (D * D)) * Rabs (IZR s * bpow rB e))%R /\
+  (en / (D * D) <= IZR (18 * k * Z.log2_up rNB) * bpow rNB (1 - 2 * p))%R.
+Proof. exact convert_large_route_error_fixed. Qed.
+Print Assumptions C08_convert_large_route_error_fixed.
+
+Theorem C08_large_route_check_wp_sound : forall (rNB : radix) k B p wp e N Dv rs re, 0 < Dv -> 1 <= p -> 1 <= wp ->
+  large_route_check_wp k B rNB p wp e N Dv rs re = Some true ->
+  let D := IZR (lr_Dw rNB wp) in let en := IZR (lr_enw k B rNB wp e) in
+  (Rabs (IZR rs * bpow rNB re - IZR N / IZR Dv) <=
+   (bpow rNB (1 - p) * (1 + en / (D * D)) + en / (D * D)) * Rabs (IZR N / IZR Dv))%R.
+Proof. exact large_route_check_wp_sound. Qed.
+Print Assumptions C08_large_route_check_wp_sound.
+
+(** the witness of the repaired defect F07 (9e-39 to 3 bits: work precision 6 before, 14 now) *)
+Theorem C08_large_work_precision_before_fix_refuted :
+  large_work_precision_gen 3 (-39) 10 2 = 14 /\
+  large_route_check 4 10 2 3 (-39) 9 (10 ^ 39) 3 (-123) = None /\
+  large_route_check_wp 4 10 2 3 14 (-39) 9 (10 ^ 39) 3 (-123) = Some false /\
+  large_route_check_wp 4 10 2 3 14 (-39) 9 (10 ^ 39) 3 (-128) = Some true.
+Proof. exact large_work_precision_ex. Qed.
+Print Assumptions C08_large_work_precision_before_fix_refuted.
+
+(** ** round 3: the precision FBig::with_base chooses, (B^p).log2_bounds().0 / NewB.log2_bounds().1 as usize, as it is:
+    the two f32 bounds as dyadic numbers lb = m1 * 2^e1, ub = m2 * 2^e2 (brought to a common scale: lb / ub = L / U),
+    the IEEE division to nearest even (f32_div_rne) and the truncation (dy_floor).  Under the contract of log2_bounds
+    (2^lb <= B^p, NB <= 2^ub; C12) the chosen precision p' is floor (lb / ub), or one more exactly when the division
+    rounded a non-integer quotient up to an integer; NB^p' <= B^p in the first case, NB^(p'-1) <= B^p always; and p' is
+    at least every n with n * ub <= lb: it is the maximal precision pmax of the documented rule iff pmax * ub <= lb *)
+
+Theorem C08_f32_div_keeps_integers : forall m1 e1 m2 e2 n, 0 < m1 -> 0 < m2 -> 0 <= n ->
+  let '(qm, qe) := f32_div_rne m1 e1 m2 e2 in
+  qe <= 0 ->
+  (le2 (n * m2) m1 (e1 - e2) -> n * 2 ^ (- qe) <= qm) /\ (ge2 (n * m2) m1 (e1 - e2) -> qm <= n * 2 ^ (- qe)).
+Proof. exact f32_div_rne_keeps_integers. Qed.
+Print Assumptions C08_f32_div_keeps_integers.
+
+Theorem C08_with_base_precision_closed : forall B NB p, 2 <= B -> 2 <= NB -> 0 <= p ->
+  forall m1 e1 m2 e2, 0 < m1 -> 0 < m2 ->
+  2 ^ wb_L m1 e1 e2 <= (B ^ p) ^ (2 ^ wb_scale e1 e2) ->
+  NB ^ (2 ^ wb_scale e1 e2) <= 2 ^ wb_U e1 m2 e2 ->
+  forall qm qe, f32_div_rne m1 e1 m2 e2 = (qm, qe) -> qe <= 0 -> wb_L m1 e1 e2 / wb_U e1 m2 e2 + 1 < 2 ^ 24 ->
+  let p' := dy_floor qm qe in
+  let x := wb_L m1 e1 e2 / wb_U e1 m2 e2 in
+  (p' = x \/ (p' = x + 1 /\ qm = p' * 2 ^ (- qe) /\ wb_L m1 e1 e2 mod wb_U e1 m2 e2 <> 0)) /\
+  (p' = x -> NB ^ p' <= B ^ p) /\
+  (1 <= p' -> NB ^ (p' - 1) <= B ^ p) /\
+  (forall n, 0 <= n < 2 ^ 24 -> n * wb_U e1 m2 e2 <= wb_L m1 e1 e2 -> n <= p').
+Proof. exact with_base_prec_closed. Qed.
+Print Assumptions C08_with_base_precision_closed.
 
 (** ** import of IEEE floats: TryFrom<f32/f64> for Repr<2> / FBig<R,2> as written (the decoder is C06's as-is
     model of f32::decode / f64::decode, proved there) = the specification, which is exact: for every bit
